@@ -543,6 +543,20 @@ def assignable(ty):
 
 def sim_modes(ty):
     """construction paths exercised in the compiled wrapper of ty (besides the basic `ser` = kw)"""
+    return rec_sim_modes(ty) + SNAP_MODES + (["snapser", "snapserv"] if ty[0] == "ser" else [])
+
+
+# snapshot semantics of the emitted logic (`to_bits(x)` is the VALUE of x at the call, `from_bits` results do not alias their
+# argument): x is held in a Variable, serialised, then REASSIGNED from port b, then the bits are used
+#   snap     bits = to_bits(x); x := from_bits(b); out <= bits                  -> a
+#   snaprt   y = from_bits[T](bits) (before the reassignment); out <= to_bits(y)  -> a
+#   fb       z = from_bits[T](bv); bv := b; out <= to_bits(z)                    -> a
+#   snapser / snapserv   s = Serialized[T](x); x := ..; out <= s.bits() / to_bits(s.value())   -> a
+SNAP_MODES = ["snap", "snaprt", "fb"]
+SNAP_ALL = SNAP_MODES + ["snapser", "snapserv"]
+
+
+def rec_sim_modes(ty):
     inner = ty[1] if ty[0] == "ser" else ty
     if not has_rec(inner):
         return []
@@ -594,7 +608,27 @@ def entity_source(ty, modes=None):
     procs = []
     for m in (sim_modes(ty) if modes is None else modes):
         ports.append(f"    ser_{m} = Port.output(BitVector[{W}])")
-        if m in EXTRA_MODES:
+        if m == "snap":
+            ports.append(f"    b = Port.input(BitVector[{W}])")
+            lines = ["        @std.sequential", "        def p_snap():",
+                     "            x = std.from_bits[TOP](self.inp, std.Variable)",
+                     "            bits = std.to_bits(x)",
+                     "            y = std.from_bits[TOP](bits)"]
+            if ty[0] == "ser":
+                lines.append("            s = std.Serialized[TOP](x)")
+            lines += ["            x @= std.from_bits[TOP](self.b)",
+                      "            self.ser_snap <<= bits",
+                      "            self.ser_snaprt <<= std.to_bits(y)",
+                      f"            bv = std.Variable[BitVector[{W}]](self.inp)",
+                      "            z = std.from_bits[TOP](bv)",
+                      "            bv @= self.b",
+                      "            self.ser_fb <<= std.to_bits(z)"]
+            if ty[0] == "ser":
+                lines += ["            self.ser_snapser <<= s.bits()", "            self.ser_snapserv <<= std.to_bits(s.value())"]
+            procs.append("\n".join(lines))
+        elif m in ("snaprt", "fb", "snapser", "snapserv"):
+            pass
+        elif m in EXTRA_MODES:
             body.append(f"            w_{m} = {cons_expr(inner, [0], m)}")
             if ty[0] == "ser":
                 body.append(f"            self.ser_{m} <<= std.Serialized[TOP](w_{m}).bits()")
@@ -667,6 +701,7 @@ def sim_task(item):
     lv = leaves(inner)
     d = Design17(vhdl)
     d.set("inp", 0)
+    d.set("b", 0)
     for n in range(len(lv)):
         d.set(f"k{n}", 0)
     d.initialise()
@@ -674,6 +709,7 @@ def sim_task(item):
     for b, iv in zip(patterns, inner_vals):
         vals = flat_leaves(inner, parse_sexp(iv))
         d.set("inp", int(b, 2))
+        d.set("b", int(b, 2) ^ ((1 << len(b)) - 1))      # the value the snapshot source is reassigned to: every bit differs
         for n, ((path, leaf), v) in enumerate(zip(lv, vals)):
             d.set(f"k{n}", leaf_value(leaf, v))
         d.settle()
@@ -1036,7 +1072,8 @@ def eval_sim(types, pats, model):
                 e, o = exp.split(" "), line.split(" ")
                 k = [a == b for a, b in zip(e, o)].index(False) if len(e) == len(o) else 0
                 what = "emitted to_bits(from_bits(inp))" if k == 0 else ("emitted to_bits(constructed)" if k == 1 else
-                       f"emitted to_bits(constructed [{e[k].split('=')[0]}])" if "=" in e[k] else f"emitted from_bits leaf {k - 2}")
+                       (f"emitted snapshot [{e[k].split('=')[0]}] after the source was reassigned to the complement" if e[k].split("=")[0] in SNAP_ALL else
+                        f"emitted to_bits(constructed [{e[k].split('=')[0]}])") if "=" in e[k] else f"emitted from_bits leaf {k - 2}")
                 out[i].append((what, p, exp, line))
     return out, srcs
 
